@@ -14,7 +14,7 @@ class OutOfScope(Exception):
 
 GUARD_BOUNDS = dict(
     frame_width=64, frame_height=64, dwt_depth=4, dwt_depth_ho=4, slices_x=16, slices_y=16,
-    luma_excursion=1 << 32, color_diff_excursion=1 << 32, slice_bytes_numerator=4096,
+    luma_excursion=1 << 64, color_diff_excursion=1 << 64, slice_bytes_numerator=4096,
     slice_prefix_bytes=64, slice_size_scaler=64,
 )
 MAX_LUMA = 64
@@ -41,7 +41,7 @@ def _guarded(orig):
             if state.get("luma_width", 0) > MAX_LUMA or state.get("luma_height", 0) > MAX_LUMA:
                 VGUARD_TRIPPED[0] = "luma size"
                 raise OutOfScope("luma %sx%s" % (state.get("luma_width"), state.get("luma_height")))
-            if state.get("luma_depth", 0) > 33 or state.get("color_diff_depth", 0) > 33:
+            if state.get("luma_depth", 0) > 65 or state.get("color_diff_depth", 0) > 65:
                 VGUARD_TRIPPED[0] = "depth"
                 raise OutOfScope("depth")
         return orig(state, key, value)
@@ -168,7 +168,7 @@ def iter_slices(sequence):
 
 DESER_BOUNDS = dict(luma_width=64, luma_height=64, color_diff_width=64, color_diff_height=64, dwt_depth=4,
                     dwt_depth_ho=4, slices_x=16, slices_y=16, slice_prefix_bytes=64, slice_size_scaler=64,
-                    slice_bytes_numerator=4096, luma_depth=33, color_diff_depth=33)
+                    slice_bytes_numerator=4096, luma_depth=65, color_diff_depth=65)
 
 
 GUARD_TRIPPED = [None]  # set when the deserialiser guard fires (the viewer swallows the exception)
